@@ -415,3 +415,42 @@ Proof.
   - intros a b c _ _ _ H1 H2. apply Rltb_true in H1, H2. apply Rltb_true. lra.
   - intros a b c _ _ _ H1 H2. apply Rltb_false in H1, H2. apply Rltb_false. lra.
 Qed.
+
+(* sessions on reused RDDs: every summary on the stack and every observation represents its ghost data, and the ghost
+   data of an observation of RDD j is exactly the data of RDD j -- whatever was done with earlier summaries *)
+Definition good lo hi (o : scR * list R) : Prop := Rep lo hi (fst o) (snd o).
+Definition of_rdd (rdds : list (list (list R))) (o : scR * list R) : Prop :=
+  exists parts, In parts rdds /\ snd o = concat parts.
+
+Lemma session_rep lo hi rdds prog : forall stack obs res_obs res_stack,
+  Forall (good lo hi) stack -> Forall (fun o => good lo hi o /\ of_rdd rdds o) obs ->
+  session lo hi rdds prog stack obs = Some (res_obs, res_stack) ->
+  Forall (good lo hi) res_stack /\ Forall (fun o => good lo hi o /\ of_rdd rdds o) res_obs.
+Proof.
+  induction prog as [|op p IH]; intros stack obs ro rs Hs Ho H; simpl in H.
+  - inversion H; subst. split; [exact Hs|]. apply Forall_rev. exact Ho.
+  - destruct op as [i | | | v | j].
+    + destruct (nth_error rdds i) as [parts|] eqn:E; [|discriminate].
+      eapply IH; [| exact Ho | exact H]. constructor; [|exact Hs]. apply rdd_stats_rep.
+    + destruct stack as [|[r dr] [|[l dl] st]]; try discriminate.
+      inversion Hs as [|? ? Hr Hs']; subst. inversion Hs' as [|? ? Hl Hs'']; subst.
+      eapply IH; [| exact Ho | exact H]. constructor; [|exact Hs'']. apply Rep_comb; assumption.
+    + destruct stack as [|[s d] st]; try discriminate. inversion Hs as [|? ? Hd Hs']; subst.
+      eapply IH; [| exact Ho | exact H]. constructor; [|exact Hs']. apply Rep_self; assumption.
+    + destruct stack as [|[s d] st]; try discriminate. inversion Hs as [|? ? Hd Hs']; subst.
+      eapply IH; [| exact Ho | exact H]. constructor; [|exact Hs']. apply Rep_add; assumption.
+    + destruct (nth_error rdds j) as [parts|] eqn:E; [|discriminate].
+      eapply IH; [exact Hs | | exact H]. constructor; [|exact Ho]. split; [apply rdd_stats_rep|].
+      exists parts. split; [eapply nth_error_In; exact E | reflexivity].
+Qed.
+
+Lemma session_two_pass lo hi rdds prog obs stack :
+  session lo hi rdds prog [] [] = Some (obs, stack) ->
+  Forall (fun o => TwoPass lo hi (fst o) (snd o)) stack /\
+  Forall (fun o => TwoPass lo hi (fst o) (snd o) /\ exists parts, In parts rdds /\ snd o = concat parts) obs.
+Proof.
+  intros H. destruct (session_rep lo hi rdds prog [] [] obs stack (Forall_nil _) (Forall_nil _) H) as [Hs Ho].
+  split.
+  - eapply Forall_impl; [| exact Hs]. intros o Hg. apply Rep_two_pass, Hg.
+  - eapply Forall_impl; [| exact Ho]. intros o [Hg Hr]. split; [apply Rep_two_pass, Hg | exact Hr].
+Qed.
